@@ -571,6 +571,24 @@ def replay(chk, path):
     doc = json.load(open(path))
     sc = doc["scenario"]
     build_harness("c07")
+    if sc["kind"] == "bounds" and doc.get("tags", {}).get("outcome") == "depends-on-earlier-calls":
+        # the result depended on the calls made before it: the whole series of calls is made again (twice, in two orders,
+        # as in the check) and the same input is looked up
+        rows, ngrid = bounds_inputs(chk, True)
+        fin = os.path.join(chk.wd, "replay_in.ndjson")
+        write_ndjson(fin, rows)
+        tf = os.path.join(chk.wd, "replay_trace.ndjson")
+        harness("c07", ["bounds", "in=" + fin, "out=" + tf, "full=1"], timeout=900)
+        want = {k: sc["input"].get(k) for k in ("src", "b", "jac", "p")}
+        hit = [e for e in read_ndjson(tf)[1:-1] if {k: e.get(k) for k in want} == want]
+        bad = any(e.get("pure") is False for e in hit)
+        others = sum(1 for e in read_ndjson(tf)[1:-1] if e.get("pure") is False)
+        log("the series of %d calls made again: this input %s (%d inputs in all give other bits when asked again in another thread)"
+            % (len(rows), "gives other bits when asked again" if bad else "is stable now", others))
+        if bad or (not hit and others):
+            log("VIOLATION property=C07 replay=%s" % path)
+            return 1
+        return 0
     if sc["kind"] == "bounds":
         fin = os.path.join(chk.wd, "one_in.ndjson")
         write_ndjson(fin, [sc["input"]])
